@@ -14,7 +14,8 @@ RULE = ("trajectories computed with extra data from generated shots (flat and ar
         "distance so that queried ranges fall on the rising and the falling branch, record steps 3..300 ft); 12 queries per "
         "trajectory: target ranges from 0 to beyond the last row (in any distance unit or bare), target heights 0.01 in..30 ft; "
         "non-trivial = a query whose target row is on the rising branch or look != 0, with both bounds interior rows; "
-        "distinct = distinct case dicts")
+        "distinct = distinct case dicts; one case in six is a slow steep lob into a head wind recorded with time-step rows (rows not in "
+        "order of distance, ranges within the furthest row)")
 ASSUMPTIONS = ["drop = target_drop column; the target height is the one the result reports (the bare-number slot ambiguity is C07's)",
                "monotonicity compares row indices of begin/end for increasing heights at the same range"]
 
